@@ -36,6 +36,10 @@ for line in io.lines() do
       local key = nil
       if w[3] ~= '-' then key = unhex(w[3]) end
       res = show(pcall(hasher.blake2b, unhex(w[4]), math.tointeger(tonumber(w[2])), key))
+    elseif op == 'b' then      -- default digest length, no key argument at all
+      res = show(pcall(hasher.blake2b, unhex(w[2])))
+    elseif op == 'K' then      -- key given as the empty string (not nil)
+      res = show(pcall(hasher.blake2b, unhex(w[3]), math.tointeger(tonumber(w[2])), ''))
     elseif op == 'E' then
       res = show(pcall(hasher.base58encode, unhex(w[2])))
     elseif op == 'D' then
